@@ -117,6 +117,16 @@ func genC06(tier string, seed int64) []Case {
 			}
 		}
 	}
+	// init-phase faults with the events watcher delayed right after it cancelled the flows (the init that wakes
+	// up must already find the fault recorded: its runtime-done names it)
+	for _, nExt := range []int{0, 1} {
+		for _, f := range []string{"earlyExit", "beforeNext"} {
+			add(c06Desc{Who: "rt", Fault: f, Exit: vh.Exit{Code: 3}, NExt: nExt, Timing: "early", RtResp: "withheld", HookDelay: map[string]int{"registrations.flowsCancelled": 25}})
+		}
+	}
+	for _, f := range []string{"beforeRegister", "afterRegister"} {
+		add(c06Desc{Who: "e0", Fault: f, Exit: vh.Exit{Signal: 9}, NExt: 1, Timing: "early", RtResp: "withheld", HookDelay: map[string]int{"registrations.flowsCancelled": 25}})
+	}
 	// a fault, recovery, then a DIFFERENT fault in the next generation: the second failure must name its own
 	// fault, whatever was reported while the first generation was being torn down
 	for _, nExt := range []int{1, 2} {
